@@ -65,3 +65,11 @@ func TestVerifWitnessRequiredEmptySecurityScheme(t *testing.T) {
 		verifRoundTripEqual(t, `{"type":"oauth2","flow":"accessCode","authorizationUrl":"http://a","tokenUrl":""}`, &SecurityScheme{})
 	})
 }
+
+func TestVerifWitnessRequiredEmptySwagger(t *testing.T) {
+	verifRoundTripEqual(t, `{"swagger":"","info":{"title":"t","version":"1"},"paths":{}}`, &Swagger{})
+}
+
+func TestVerifWitnessRequiredEmptyExternalDocs(t *testing.T) {
+	verifRoundTripEqual(t, `{"url":""}`, &ExternalDocumentation{})
+}
